@@ -365,7 +365,10 @@ def run(ctx):
                 "up to 20 ids pre-placed in the live map around the counter and across the wrap-around point, then "
                 "1..25 ops: local open (open_channel's critical section), peer open through the real "
                 "_parse_channel_open (accepted or rejected, with 0..4 local opens / closes inside the server "
-                "callback, i.e. inside the pending window), close of a probably-live or random id; a case is "
+                "callback, i.e. inside the pending window), close of a probably-live or random id through the channel's "
+                "own _handle_close / _unlink (remote ids differ from local ids and often equal another live channel's "
+                "local id), OPEN_SUCCESS / OPEN_FAILURE naming opening, established and unknown ids; two-thread "
+                "schedules placing a local open inside the peer open's reservation; a case is "
                 "non-trivial when it allocates at least two ids")
     ctx.trusted += ["model coq/Model/C23.v is hand-written; tied to paramiko/transport.py (_next_channel, ChannelMap, "
                     "_unlink_channel, _parse_channel_open; open_channel's critical section is replayed by the "
